@@ -18,17 +18,19 @@ ACTIONS = ["BorrowStart", "BorrowTake", "Send", "Respond", "Timeout", "ConnFails
 WITNESSES = {
     "C12": ["Witness_CapacityRefusal", "Witness_PublishAfterShutdown", "Witness_ShutdownWithTrash",
             "Witness_RetireAfterShutdown", "Witness_FailedOldWhileCurrentHealthy", "Witness_InlineShutdown",
-            "Witness_QuiescentAllClosed"],
+            "Witness_QuiescentAllClosed", "Witness_ShutdownDuringUse"],
     "C13": ["Witness_Trashed", "Witness_TrashClosedByRespond", "Witness_TrashClosedByTimeout", "Witness_Repick"],
 }
 
 # constants: capacity MaxId, orphan threshold, requests, connections ever opened, failed opens, socket errors
-K_SMALL = {"MaxId": 2, "Threshold": 1, "Reqs": {1, 2}, "NConns": 2, "MaxFails": 0, "MaxConnFails": 1}
-K_SMALL3 = {"MaxId": 2, "Threshold": 1, "Reqs": {1, 2}, "NConns": 3, "MaxFails": 1, "MaxConnFails": 1}
-K_CAP = {"MaxId": 1, "Threshold": 1, "Reqs": {1, 2}, "NConns": 2, "MaxFails": 0, "MaxConnFails": 1}
-K_MID = {"MaxId": 2, "Threshold": 1, "Reqs": {1, 2, 3}, "NConns": 2, "MaxFails": 0, "MaxConnFails": 1}
-K_MID3 = {"MaxId": 2, "Threshold": 1, "Reqs": {1, 2, 3}, "NConns": 3, "MaxFails": 1, "MaxConnFails": 1}
-K_BIG = {"MaxId": 3, "Threshold": 2, "Reqs": {1, 2, 3, 4}, "NConns": 3, "MaxFails": 1, "MaxConnFails": 1}
+K_SMALL = {"MaxId": 2, "Threshold": 1, "Reqs": {1, 2}, "NConns": 2, "MaxFails": 0, "MaxConnFails": 1, "Ks": False}
+K_SMALL3 = {"MaxId": 2, "Threshold": 1, "Reqs": {1, 2}, "NConns": 3, "MaxFails": 1, "MaxConnFails": 1, "Ks": False}
+K_CAP = {"MaxId": 1, "Threshold": 1, "Reqs": {1, 2}, "NConns": 2, "MaxFails": 0, "MaxConnFails": 1, "Ks": False}
+K_MID = {"MaxId": 2, "Threshold": 1, "Reqs": {1, 2, 3}, "NConns": 2, "MaxFails": 0, "MaxConnFails": 1, "Ks": False}
+K_MID3 = {"MaxId": 2, "Threshold": 1, "Reqs": {1, 2, 3}, "NConns": 3, "MaxFails": 1, "MaxConnFails": 1, "Ks": False}
+K_KS = dict(K_SMALL, Ks=True)          # with a session keyspace: the USE on the replacement connection is a step of its own
+K_KS3 = dict(K_SMALL3, Ks=True)
+K_BIG = {"MaxId": 3, "Threshold": 2, "Reqs": {1, 2, 3, 4}, "NConns": 3, "MaxFails": 1, "MaxConnFails": 1, "Ks": False}
 
 WHAT = {
     "HostConnection.shutdown:trashed-connections-not-closed":
@@ -45,8 +47,8 @@ WHAT = {
 
 
 def name(k):
-    return "MaxId=%d Threshold=%d Reqs=%d NConns=%d MaxFails=%d MaxConnFails=%d" % (
-        k["MaxId"], k["Threshold"], len(k["Reqs"]), k["NConns"], k["MaxFails"], k["MaxConnFails"])
+    return "MaxId=%d Threshold=%d Reqs=%d NConns=%d MaxFails=%d MaxConnFails=%d%s" % (
+        k["MaxId"], k["Threshold"], len(k["Reqs"]), k["NConns"], k["MaxFails"], k["MaxConnFails"], " keyspace" if k.get("Ks") else "")
 
 
 def owner_of_invariant(inv):
@@ -191,7 +193,8 @@ def tlc_exhaustive(ctx, pid, consts, label, rep, coverage=True, timeout=900):
 
 def witnesses(ctx, pid, consts):
     def one(w):
-        cfg = tlc.write_cfg(os.path.join(ctx.scratch, w + ".cfg"), constants=consts, invariants=[w], deadlock=False)
+        k = K_KS3 if w == "Witness_ShutdownDuringUse" else consts
+        cfg = tlc.write_cfg(os.path.join(ctx.scratch, w + ".cfg"), constants=k, invariants=[w], deadlock=False)
         return w, tlc.check_model("Pool", cfg, ctx.scratch, workers=2, timeout=600, heap="1g")
     with ThreadPoolExecutor(max_workers=6) as ex:
         for w, res in ex.map(one, WITNESSES[pid]):
@@ -200,7 +203,12 @@ def witnesses(ctx, pid, consts):
     ctx.note("vacuity_witnesses_reached", len(WITNESSES[pid]))
 
 
-def replay_graph(ctx, pid, consts, rep, max_walks=None, label="graph"):
+def _publish_after_shutdown_window(nodes, w):
+    """A walk in which the replacement is published (or refused) while the pool is shut down."""
+    return any(nodes[n]["act"]["name"] == "ReplacePublish" and nodes[n]["shutdown"] for n in w)
+
+
+def replay_graph(ctx, pid, consts, rep, max_walks=None, label="graph", prefer=None):
     from harness.replay import pool as rp
     cfg = tlc.write_cfg(os.path.join(ctx.scratch, "pool_%s.cfg" % label), constants=consts, deadlock=False)
     res, nodes, edges, init = tlc.state_graph("Pool", cfg, ctx.scratch, timeout=1800)
@@ -209,6 +217,9 @@ def replay_graph(ctx, pid, consts, rep, max_walks=None, label="graph"):
     total = len(walks)
     if max_walks is not None and total > max_walks:
         ctx.rng.shuffle(walks)
+        if prefer is not None:          # half of the sample from the walks through the window of interest
+            first = [w for w in walks if prefer(nodes, w)]
+            walks = (first[:max_walks // 2] + [w for w in walks if not prefer(nodes, w)])
         walks = walks[:max_walks]
     all_edges = set((s, d) for s, d, _ in edges)
     covered = set()
@@ -403,6 +414,8 @@ def run(ctx, pid):
         witnesses(ctx, pid, K_MID3)
         n = replay_graph(ctx, pid, K_SMALL, rep, max_walks=1500, label="graph")
         n += replay_graph(ctx, pid, K_CAP, rep, max_walks=400, label="graph_capacity")
+        if pid == "C12":
+            n += replay_graph(ctx, pid, K_KS, rep, max_walks=300, label="graph_keyspace", prefer=_publish_after_shutdown_window)
         validate_recorded(ctx, pid, K_MID3, 150, rep)
         ctx.note("constants", {"tlc": name(K_MID), "witnesses": name(K_MID3), "replay": [name(K_SMALL), name(K_CAP)],
                                "traces": name(K_MID3)})
@@ -416,6 +429,11 @@ def run(ctx, pid):
         n = replay_graph(ctx, pid, K_SMALL3, rep, label="graph")
         n += replay_graph(ctx, pid, K_CAP, rep, label="graph_capacity")
         n += replay_simulated(ctx, pid, K_BIG, rep, num=2500)
+        if pid == "C12":
+            if tlc_exhaustive(ctx, pid, dict(K_MID3, Ks=True), "mid3ks", rep, coverage=False) is None:
+                return rep.finish()
+            n += replay_graph(ctx, pid, K_KS3, rep, label="graph_keyspace")
+            validate_recorded(ctx, pid, dict(K_MID3, Ks=True), 600, rep)
         validate_recorded(ctx, pid, K_MID3, 1500, rep)
         validate_recorded(ctx, pid, K_BIG, 1500, rep, max_events=80)
         ctx.note("constants", {"tlc": [name(K_MID3), name(K_BIG)], "replay": [name(K_SMALL3), name(K_CAP)],
